@@ -136,8 +136,8 @@ def _bind_rules(args):
             return [inv[s] for s in op.split_symbol]
         for r in rules:
             w1, w2 = r["w1"], r["w2"]
-            if len([s for s in w1 if s != "Z"]) > 1:
-                continue       # the code asserts at most one ladder symbol of each kind on the first site; products are covered via op2
+            if w1.count("+") > 1 or w1.count("-") > 1:
+                continue       # the code asserts at most one ladder symbol OF EACH KIND on the first site (number operators are allowed)
             prim = [Op.identity(0), Op.identity(1), mk(w1, 0), mk(w2, 1)]
             op2idx = {op: i for i, op in enumerate(prim)}
             try:
